@@ -1321,6 +1321,21 @@ impl<'r> Gen<'r> {
                 self.semi();
                 continue;
             }
+            if w == "const" && self.o.extended && self.rng.chance(1, 8) {
+                // a bare literal followed by a portability directive: `C = $FF deprecated;`
+                self.op("=");
+                if self.rng.chance(1, 4) {
+                    self.string_lit();
+                } else {
+                    self.number();
+                }
+                self.hint_directive();
+                if self.rng.chance(1, 4) {
+                    self.hint_directive();
+                }
+                self.semi();
+                continue;
+            }
             if w == "const" && self.rng.chance(1, 3) {
                 self.feat("typed-const");
                 self.op(":");
